@@ -24,6 +24,9 @@ CHECKS = {
  "C06": dict(design="§5 C06", engine="XH",
              technique="CrossHair (z3) symbolic execution of reindex_database + write-back as one inductive step from every pair of invariant-satisfying per-page states (files, index, hash map), plain and explicit-path runs",
              note="stubs: recording repo (SQL deletions/converters not claimed), three-line-page reader for walk_zorg_page, _check_for_modified_notes no-op, in-memory FS, hash = identity; 2 pages"),
+ "C18": dict(design="§6 C18", engine="XH",
+             technique="CrossHair (z3) symbolic execution of expand_file_group_paths/_paths_from_file_group against an independent recursive flattening; clock stub with local time and zone offset",
+             note="stub: clock (datetime.now with/without tz); structures, date patterns and argument lists from the stated finite shapes"),
 }
 NA = {
  "C13": "crash points between external effects (SQLite transactions, OS file writes) cannot be made symbolic: the effects are C-level/ORM internals; with them concrete a symbolic crash index is realised at the first effect, which is enumeration of faulted runs, a different technique (DESIGN.md §8)",
